@@ -192,3 +192,32 @@ def make_calendar_classes():
             return v
 
     return CountingCalendar, LazyCalendar
+
+
+class WallTimeout(BaseException):
+    """Raised inside library code by the watchdog timer (BaseException: a broad `except Exception` in the library cannot eat it)."""
+
+
+class time_limit:
+    """Wall-clock watchdog for one library call that must terminate: `with time_limit(60): scheduler.calc(w)`.
+    The limit is orders of magnitude above what the call needs on the bounded inputs of the checks (milliseconds; the longest,
+    a 100000-day horizon scan, about a second), so only a call that does not terminate reaches it. Main thread of a worker process only."""
+
+    def __init__(self, seconds):
+        self.seconds = seconds
+        self.old = None
+
+    def _fire(self, signum, frame):
+        raise WallTimeout()
+
+    def __enter__(self):
+        import signal
+        self.old = signal.signal(signal.SIGALRM, self._fire)
+        signal.setitimer(signal.ITIMER_REAL, self.seconds)
+        return self
+
+    def __exit__(self, *a):
+        import signal
+        signal.setitimer(signal.ITIMER_REAL, 0)
+        signal.signal(signal.SIGALRM, self.old)
+        return False
